@@ -59,7 +59,7 @@ func c02Run(f []string) string {
 		return c02RxRun(f)
 	case "dissectpipe":
 		return c02PoolRun(f)
-	case "filt", "vis", "idx":
+	case "filt", "filtl", "vis", "idx":
 		return c02FilterRun(f)
 	case "ctx":
 		// ctx <line> <indices> <names> <name idx> <src> <linenum> <key>
